@@ -1366,7 +1366,8 @@ pub fn generate(p: &GenParams) -> Generated {
         base.push(EXTERNREF);
     }
     let mut sigs: Vec<(Vec<VT>, Vec<VT>)> = vec![(vec![], vec![])];
-    let n_sigs = rng.range(2, 8);
+    // (a quarter of the modules have many types: tables keyed by type index see more than a handful)
+    let n_sigs = if rng.chance(1, 4) { rng.range(9, 28) } else { rng.range(2, 8) };
     for _ in 0..n_sigs {
         let np = rng.small(4);
         let nr = if p.multi_value { rng.small(3) } else { rng.below(2) };
